@@ -71,6 +71,9 @@ def placement_deviations(placement, d):
         for m in members[1:]:
             singles.append((fi, "move", [[m, base[1]]]))
         singles.append((fi, "remove", []))
+        # the family's chop given as two sections with identical arguments (twice its count)
+        half = dict(base[1], length_ratio=0.5)
+        singles.append((fi, "two_equal_sections", [[base[0], dict(half)], [base[0], dict(half)]]))
         for m in members[1:]:
             singles.append((fi, "add_same", [base, [m, base[1]]]))
             singles.append((fi, "add_other_expansion", [base, [m, _kw(fi, 1)]]))
